@@ -16,7 +16,7 @@ EXTENDS CoSource
 RECURSIVE LabV(_, _)
 LabV(ve, n) ==
   CASE ve.k = "obs" -> [v |-> [ve EXCEPT !.id = n], n |-> n + 1]
-    [] ve.k \in {"neg", "paren", "w1", "b1"} -> LET r == LabV(ve.e, n) IN [v |-> [ve EXCEPT !.e = r.v], n |-> r.n]
+    [] ve.k \in {"neg", "paren", "w1", "b1", "fresh"} -> LET r == LabV(ve.e, n) IN [v |-> [ve EXCEPT !.e = r.v], n |-> r.n]
     [] ve.k = "lit" /\ ve.v = 0 -> [v |-> [ve EXCEPT !.v = 100 + n], n |-> n + 1]
     [] OTHER -> [v |-> ve, n |-> n]
 LabC(c, n) == IF IsNone(c) THEN [v |-> c, n |-> n] ELSE [v |-> [c EXCEPT !.id = n], n |-> n + 1]
